@@ -522,16 +522,21 @@ func genRule(r *rng, u *universe, simple bool, allowPass bool) *grule {
 // ------------------------------------------------------------------ endpoint description
 
 type gpolicy struct {
-	id       types.PolicyID
-	staged   bool
-	in, out  []*grule
-	selector int
+	id            types.PolicyID
+	staged        bool
+	in, out       []*grule
+	hasIn, hasOut bool // policy types: applies to ingress / egress
+	selector      int
 }
 type ggroup struct{ pols []*gpolicy }
 type gtier struct {
 	name          string
 	defaultAction string
-	groups        []*ggroup
+	// the tier's policy groups per direction, as TierPolicyGroups carries them: a policy with ingress rules
+	// only is in groupsIn only, one with egress rules only in groupsOut only, the rest in both (grouped
+	// independently per direction, as groupPolicies does)
+	groupsIn, groupsOut []*ggroup
+	groups              []*ggroup // = the rendered direction's groups (set by buildCase)
 }
 type gprofile struct {
 	name    string
@@ -602,15 +607,8 @@ func genEndpoint(r *rng, u *universe, o *caseOpts) ([]*gtier, []*gprofile, []str
 				nP = 11 + r.intn(2)
 			}
 		}
-		var cur *ggroup
-		sel := 0
-		for k := 0; k < nP; k++ {
-			p := &gpolicy{}
-			polN++
-			kindIdx := r.intn(10)
-			if bigTier && kindIdx >= 7 && r.chance(60) {
-				kindIdx = r.intn(7) // fewer staged policies in big tiers so that groups of enforced policies get long
-			}
+		var pols []*gpolicy
+		mkKind := func(p *gpolicy, kindIdx int) {
 			switch {
 			case kindIdx < 4:
 				p.id = types.PolicyID{Name: fmt.Sprintf("%s.pol%d", tr.name, polN), Kind: "GlobalNetworkPolicy"}
@@ -626,36 +624,94 @@ func genEndpoint(r *rng, u *universe, o *caseOpts) ([]*gtier, []*gprofile, []str
 				p.id = types.PolicyID{Name: fmt.Sprintf("pol%d", polN), Namespace: "ns1", Kind: "StagedKubernetesNetworkPolicy"}
 			}
 			p.staged = strings.HasPrefix(p.id.Kind, "Staged")
+		}
+		for k := 0; k < nP; k++ {
+			p := &gpolicy{}
+			polN++
+			kindIdx := r.intn(10)
+			if bigTier && kindIdx >= 7 && r.chance(60) {
+				kindIdx = r.intn(7) // fewer staged policies in big tiers so that groups of enforced policies get long
+			}
+			mkKind(p, kindIdx)
+			// policy types: both directions, ingress only, egress only
+			switch d := r.intn(100); {
+			case d < 46 || bigTier && d < 80:
+				p.hasIn, p.hasOut = true, true
+			case d < 73:
+				p.hasIn = true
+			default:
+				p.hasOut = true
+			}
+			pols = append(pols, p)
+		}
+		// direction-asymmetric tiers: every policy that applies to direction D is staged while an enforced
+		// policy applies to the other direction only (a staged trial policy next to an enforced one-way policy)
+		if !bigTier && len(pols) >= 1 && r.chance(22) {
+			dIn := r.chance(50) // D = ingress?
+			for _, p := range pols {
+				if dIn && p.hasIn || !dIn && p.hasOut {
+					polN++
+					mkKind(p, 7+r.intn(3))
+				}
+			}
+			polN++
+			q := &gpolicy{hasIn: !dIn, hasOut: dIn}
+			mkKind(q, r.intn(7))
+			{
+				at := r.intn(len(pols) + 1)
+				np := append([]*gpolicy{}, pols[:at]...)
+				np = append(np, q)
+				pols = append(np, pols[at:]...)
+			}
+			if r.chance(70) {
+				// make sure direction D is not empty
+				polN++
+				s := &gpolicy{hasIn: dIn, hasOut: !dIn}
+				mkKind(s, 7+r.intn(3))
+				pols = append(pols, s)
+			}
+			tags = append(tags, "tier-layout:staged-only-one-direction+enforced-other")
+		}
+		for _, p := range pols {
 			nr := []int{0, 1, 1, 2, 3}[r.intn(5)]
 			if big {
 				nr = []int{0, 1, 1, 1, 2}[r.intn(5)]
 			}
-			for i := 0; i < nr; i++ {
+			for i := 0; p.hasIn && i < nr; i++ {
 				p.in = append(p.in, genRule(r, u, big, true))
 			}
 			nr2 := []int{0, 1, 1, 2, 3}[r.intn(5)]
 			if big {
 				nr2 = []int{0, 1, 1, 1, 2}[r.intn(5)]
 			}
-			for i := 0; i < nr2; i++ {
+			for i := 0; p.hasOut && i < nr2; i++ {
 				p.out = append(p.out, genRule(r, u, big, true))
 			}
-			splitChance := 35
-			if bigTier {
-				splitChance = 7
-			}
-			if cur == nil || r.chance(splitChance) {
-				sel++
-				cur = &ggroup{}
-				tr.groups = append(tr.groups, cur)
-			}
-			p.selector = sel
-			cur.pols = append(cur.pols, p)
 		}
-		if r.chance(4) {
-			// a group with no policies at all (never produced by groupPolicies, tolerated by the renderer)
-			tr.groups = append(tr.groups, &ggroup{})
+		splitChance := 35
+		if bigTier {
+			splitChance = 7
 		}
+		group := func(inDir bool) []*ggroup {
+			var out []*ggroup
+			var cur *ggroup
+			for _, p := range pols {
+				if inDir && !p.hasIn || !inDir && !p.hasOut {
+					continue
+				}
+				if cur == nil || r.chance(splitChance) {
+					cur = &ggroup{}
+					out = append(out, cur)
+				}
+				cur.pols = append(cur.pols, p)
+			}
+			if r.chance(4) {
+				// a group with no policies at all (never produced by groupPolicies, tolerated by the renderer)
+				out = append(out, &ggroup{})
+			}
+			return out
+		}
+		tr.groupsIn, tr.groupsOut = group(true), group(false)
 		tiers = append(tiers, tr)
 	}
 	nPr := []int{0, 1, 1, 2, 3}[r.intn(5)]
@@ -726,29 +782,37 @@ func buildCase(r *rng, o *caseOpts, u *universe, tiers []*gtier, profs []*gprofi
 	}
 	var tpgs []rules.TierPolicyGroups
 	type grp struct {
-		g   *ggroup
+		g    *ggroup
 		real *rules.PolicyGroup
 	}
 	var allGroups []grp
 	for _, t := range tiers {
+		// ONE TierPolicyGroups value per tier carrying both directions, as the dataplane passes it
 		tpg := rules.TierPolicyGroups{Name: t.name, DefaultAction: t.defaultAction}
-		for _, g := range t.groups {
-			mkGroup := func(dir rules.PolicyDirection) *rules.PolicyGroup {
-				pg := &rules.PolicyGroup{Direction: dir, Selector: fmt.Sprintf("sel == '%s-%d'", t.name, len(tpg.IngressPolicies))}
-				for _, p := range g.pols {
-					id := p.id
-					pg.Policies = append(pg.Policies, &id)
-				}
-				return pg
+		mkGroup := func(g *ggroup, dir rules.PolicyDirection, k int) *rules.PolicyGroup {
+			pg := &rules.PolicyGroup{Direction: dir, Selector: fmt.Sprintf("sel == '%s-%d'", t.name, k)}
+			for _, p := range g.pols {
+				id := p.id
+				pg.Policies = append(pg.Policies, &id)
 			}
-			// both directions carry groups; only the rendered direction's are used by the chain under test
-			in, out := mkGroup(rules.PolicyDirectionInbound), mkGroup(rules.PolicyDirectionOutbound)
-			tpg.IngressPolicies = append(tpg.IngressPolicies, in)
-			tpg.EgressPolicies = append(tpg.EgressPolicies, out)
+			return pg
+		}
+		t.groups = t.groupsIn
+		if o.egress {
+			t.groups = t.groupsOut
+		}
+		for k, g := range t.groupsIn {
+			pg := mkGroup(g, rules.PolicyDirectionInbound, k)
+			tpg.IngressPolicies = append(tpg.IngressPolicies, pg)
+			if !o.egress {
+				allGroups = append(allGroups, grp{g, pg})
+			}
+		}
+		for k, g := range t.groupsOut {
+			pg := mkGroup(g, rules.PolicyDirectionOutbound, k)
+			tpg.EgressPolicies = append(tpg.EgressPolicies, pg)
 			if o.egress {
-				allGroups = append(allGroups, grp{g, out})
-			} else {
-				allGroups = append(allGroups, grp{g, in})
+				allGroups = append(allGroups, grp{g, pg})
 			}
 		}
 		tpgs = append(tpgs, tpg)
@@ -907,7 +971,7 @@ func buildCase(r *rng, o *caseOpts, u *universe, tiers []*gtier, profs []*gprofi
 	tiersCoq := coqList(tiers, func(t *gtier) string {
 		k := 0
 		groups := coqList(t.groups, func(g *ggroup) string {
-			real := allGroups[0].real
+			var real *rules.PolicyGroup
 			for _, ag := range allGroups {
 				if ag.g == g {
 					real = ag.real
@@ -1104,6 +1168,33 @@ func buildCase(r *rng, o *caseOpts, u *universe, tiers []*gtier, profs []*gprofi
 	if nStaged > 0 {
 		tags = append(tags, "has-staged")
 	}
+	enforcedIn := func(gs []*ggroup) (n, enf int) {
+		for _, g := range gs {
+			for _, p := range g.pols {
+				n++
+				if !p.staged {
+					enf++
+				}
+			}
+		}
+		return
+	}
+	for _, t := range tiers {
+		other := t.groupsOut
+		if o.egress {
+			other = t.groupsIn
+		}
+		n, enf := enforcedIn(t.groups)
+		_, enfO := enforcedIn(other)
+		switch {
+		case len(t.groups) > 0 && enf == 0 && enfO > 0:
+			tags = append(tags, "tier:all-staged-this-direction+enforced-other-direction")
+		case n == 0 && enfO > 0:
+			tags = append(tags, "tier:empty-this-direction+enforced-other-direction")
+		case enf > 0 && enfO == 0:
+			tags = append(tags, "tier:enforced-this-direction-only")
+		}
+	}
 	if !adminUp {
 		tags = append(tags, "admin-down")
 	}
@@ -1287,6 +1378,18 @@ func main() {
 		c.Tags = append(c.Tags, tags...)
 		stats["cases"]++
 		_ = enc.Encode(c)
+		// the other direction of the same endpoint, rendered from the same TierPolicyGroups values
+		if o.kind != "hep-mangle" && r.chance(30) {
+			o.egress = !o.egress
+			c2, err := buildCase(r, o, u, tiers, profs, w, nil)
+			if err != nil {
+				fail(err)
+			}
+			c2.Tags = append(c2.Tags, tags...)
+			c2.Tags = append(c2.Tags, "second-direction-of-same-endpoint")
+			stats["cases"]++
+			_ = enc.Encode(c2)
+		}
 	}
 	_ = enc.Encode(map[string]any{"stats": stats})
 }
